@@ -480,6 +480,20 @@ func checkHookSlotWriters(c *Ctx, p *Prog, R *BusRoles, rule string) {
 	for _, f := range p.FuncsIn(PkgBus) {
 		for _, b := range f.Blocks {
 			for _, in := range b.Instrs {
+				// a function that hands out the address of a slot (a field selector given to a
+				// generic option builder) is as good as a writer of that slot
+				if ret, isRet := in.(*ssa.Return); isRet {
+					for _, rv := range ret.Results {
+						if tn, fld, _, ok := fieldOfAddr(rv); ok && tn == "EventBus" && slots[fld] {
+							o := outermost(f)
+							if direct[o] == nil {
+								direct[o] = map[string]token.Pos{}
+							}
+							direct[o][fld] = in.Pos()
+						}
+					}
+					continue
+				}
 				st, ok := in.(*ssa.Store)
 				if !ok {
 					continue
